@@ -29,7 +29,9 @@ def gen_score(rng, junk=False):
     k = rng.randrange(15)
     if k >= 12:
         # scores finer than a hundredth: only the SUM is rounded
-        return rng.choice(['12.5%', '2.5%', '0.5%', '+2.5%', '-2.5%', '37.5%', '0.4%', '0.2%', 0.125, 0.375, '0.125', '-0.125', '+0.005', 0.005])
+        return rng.choice(['12.5%', '2.5%', '0.5%', '+2.5%', '-2.5%', '37.5%', '0.4%', '0.2%', 0.125, 0.375, '0.125', '-0.125', '+0.005', 0.005,
+                           # floats that Python prints in exponent notation
+                           0.00001, 0.00005, 2.5e-05])
     n = rng.randrange(0, 60)
     if junk and rng.random() < 0.5:
         return rng.choice(['*2', '/2', '/0', 'abc', '1.2.3', '+', '%5', '.', '*50%'])
@@ -311,7 +313,7 @@ def shown(s, calls):
 def score_value(txt):
     """additive score forms of the property: [+-]?d+(.d+)?%? ; returns Fraction or None."""
     import re
-    m = re.fullmatch(r'([+-])?(\d+(?:\.\d+)?|\.\d+)(%)?', txt)
+    m = re.fullmatch(r'([+-])?(\d+(?:\.\d+)?(?:[eE][+-]?\d+)?|\.\d+)(%)?', txt)
     if not m:
         return None
     v = Fraction(m.group(2))
@@ -420,8 +422,9 @@ def oracle(pid, case, out, _group=False):
             if (x['triggered'] and not x['negative']) or (not x['triggered'] and x['negative']):
                 total += v
         # skip sums that sit on a rounding boundary at two decimals (float rounding is outside the model)
-        scaled = total * 1000
-        if scaled.denominator != 1 or scaled.numerator % 10 == 5:
+        hundredths = total * 100
+        frac = hundredths - (hundredths.numerator // hundredths.denominator)
+        if abs(frac - Fraction(1, 2)) < Fraction(1, 10 ** 6):
             return None
         want = Fraction(round(total * 100), 100)
         if Fraction(*s['score']) != want:
